@@ -289,6 +289,9 @@ static int open_slot(int fd, int kind) {
     slots[fd].peer = fcntl(e, F_DUPFD, HIGH);
     place(e, fd);
   }
+  /* every scenario descriptor is non-blocking from the start (libuv makes it so anyway when a handle adopts it):
+   * scripted readiness without data behind it must produce EAGAIN, never a blocking read */
+  fcntl(fd, F_SETFL, fcntl(fd, F_GETFL) | O_NONBLOCK);
   slots[fd].open = 1;
   slots[fd].kind = kind;
   return 0;
@@ -347,6 +350,14 @@ static int fd_taken(int fd) {
   if (multi) return 0;
   for (i = 0; i < nobj; i++)
     if (objs[i].fd == fd && !objs[i].closing) return 1;
+  return 0;
+}
+
+/* a stream handle (uv_pipe_open) owns its descriptor while it lives: the program may not close/replace it */
+static int fd_owned_by_stream(int fd) {
+  int i;
+  for (i = 0; i < nobj; i++)
+    if (objs[i].poll == 2 && objs[i].fd == fd && !objs[i].closing) return 1;
   return 0;
 }
 
@@ -414,7 +425,7 @@ static void do_op(char* line) {
     if (!IN_RANGE(a) || slots[a].open || open_slot(a, b)) printf("refused\n");
     else printf("ret 0\n");
   } else if (strcmp(cmd, "closefd") == 0 && n == 2) {
-    if (fd_open(a) && (fd_idle(a) || multi)) {
+    if (fd_open(a) && (fd_idle(a) || multi) && !fd_owned_by_stream(a)) {
       close(a);
       if (slots[a].peer >= 0) close(slots[a].peer);
       slots[a].open = 0; slots[a].peer = -1;
